@@ -26,7 +26,7 @@ def run(ctx):
                      "request's profile, start == now and >= the request's release; "
                      "getters of cluster and tasks identical before/after each call (compared in Coq as values)")
     dist_all = {}
-    for mode, n in (("natural", 100 if quick else 1500), ("adversarial", 40 if quick else 500), ("load", 30 if quick else 300), ("sim", 15 if quick else 150)):
+    for mode, n in (("natural", 80 if quick else 1500), ("adversarial", 35 if quick else 500), ("load", 25 if quick else 300), ("sim", 12 if quick else 150)):
         hs, impls = c15.generate(ctx, n, size, mode)
         nt, dist = c15.stats(ctx, hs, impls)
         ctx.cov["distinct_nontrivial"] += nt
@@ -46,20 +46,4 @@ def run(ctx):
         c15.monitors(ctx, hs, impls, stream, once=(mode != "adversarial"))
     ctx.cov["input_distribution"] = dist_all
     c15.run_corpus(ctx, "S-cw-corpus(C10)")
-    # finding F-cw1: replay the witness on the implementation; announce it only if it still fails
-    ws = c15.corpus("witness_any_and_specific")
-    if ws:
-        wi = core.run_impl("clockwork.py", {"histories": ws})["histories"]
-        c15.strip(ws, wi)
-        last = wi[0]["steps"][-1]
-        if last["result"] == [1, 2]:
-            ctx.known("F-cw1", "ClockworkScheduler.schedule() raises ValueError instead of returning: a strategy that asks for one unit "
-                               "of a resource through the id `any` and one through a specific id passes Worker.can_accomodate_strategy "
-                               "(each entry checked on its own, resources.py:378-383) on a worker holding a single unit, then "
-                               "Worker.place_task refuses it (clockwork_scheduler.py:905-919); witness corpus/C15/%s; model: "
-                               "C10_cw_returns_refuted (C10_cw_returns holds when no strategy names a resource twice)" % ws[0]["file"])
-        try:
-            c15.correspondence(ctx, ws, wi, "S-cw-witness(C10)")
-        except core.ModelEvalError as e:
-            ctx.broken.append({"kind": "correspondence", "name": "S-cw-witness(C10)", "detail": str(e)[-600:]})
     return built
